@@ -43,28 +43,49 @@ def check(ctx, run):
     cc = prog.fn(DET + "::checkForCorruption")
     run.analysed(cc)
     pn = [p["name"] for p in cc.params]
-    for p in enumerate_paths(cc):
-        val = p.val()
-        m = [v for k, v in val.items() if k.startswith("matchingAllocation(")]
-        v_ = [v for k, v in val.items() if k.startswith("validMemoryCorruptionInformation(")]
-        sep = val.get(pn[4])
-        names = [(prog.callee_name(cc, c) or "").split("::")[-1] for c in path_calls(prog, cc, p)]
-        mm, co, fr = names.count("reportAllocationDeallocationMismatchFailure"), names.count("reportMemoryCorruptionFailure"), names.count("freeMemoryLeakNode")
-        if m == [False]:
-            want = (1, 0, 0)
-        elif m == [True] and v_ == [False]:
-            want = (0, 1, 0)
-        elif m == [True] and v_ == [True]:
-            want = (0, 0, 1 if sep else 0)
+    DINL = {g.qn for g in prog.functions.values() if g.qn.startswith(DET + "::")} | {"MemoryLeakDetectorNode::init"}
+    for m_, v_, sep in itertools.product((1, 0), repeat=3):
+        seq = []
+
+        def h(name, ret):
+            return lambda *a_: (seq.append((name, a_)), ret)[1]
+        env = {"@6000.memory_": 70000, "@6000.size_": 13, "@6000.allocator_": 300, pn[0]: 6000, pn[1]: 111000, pn[2]: 77, pn[3]: 400, pn[4]: sep, "reporter_": 55}
+        ev = Evaluator(prog, cc, env=env, calls={
+            "TestMemoryAllocator::actualAllocator": lambda o, *a_: o + 1, DET + "::matchingAllocation": h("matching", m_), DET + "::validMemoryCorruptionInformation": h("valid", v_),
+            "MemoryLeakOutputStringBuffer::reportAllocationDeallocationMismatchFailure": h("mismatch", 0), "MemoryLeakOutputStringBuffer::reportMemoryCorruptionFailure": h("corruption", 0),
+            "TestMemoryAllocator::freeMemoryLeakNode": h("freenode", 0)})
+        ev.heap_mode = True
+        ev.pass_object = True
+        ev.inline = DINL - set(ev.calls)
+        try:
+            ev.run_blocks(cc.entry, max_steps=600)
+        except Unknown as u:
+            raise AnalysisBroken("C06.R1: checkForCorruption cannot be folded: %s" % u)
+        kinds = [k for k, a_ in seq]
+        ints = lambda a_: tuple(x for x in a_ if isinstance(x, int))
+        why = []
+        if kinds[:1] != ["matching"] or ints(seq[0][1]) != (301, 401):
+            why.append("the allocation type check does not come first on (record's allocator, releasing allocator), both resolved through actualAllocator(): %s" % [(k, ints(a_)) for k, a_ in seq[:2]])
+        rep = [k for k in kinds if k in ("mismatch", "corruption", "freenode")]
+        want = ["mismatch"] if not m_ else (["corruption"] if not v_ else (["freenode"] if sep else []))
+        if rep != want:
+            why.append("reports/frees %s, expected %s" % (rep, want))
+        if m_:
+            va = [ints(a_) for k, a_ in seq if k == "valid"]
+            if va != [(70013,)]:
+                why.append("the guard bytes are looked up at %s, the block is 70000 + 13" % va)
         else:
-            want = None
-        run.ob("R1", "checkForCorruption [%s]" % short(p.describe(cc), 120), cc.site, want is not None and (mm, co, fr) == want,
-               witness={"mismatch": mm, "corruption": co, "record_freed": fr}, what="" if want is not None and (mm, co, fr) == want else "reports do not follow mismatch-first, then guard validation")
-    cs = [render(cc, c) for c in cc.calls()]
-    need = ["matchingAllocation(%s->allocator_->actualAllocator(), %s->actualAllocator())" % (pn[0], pn[3]), "validMemoryCorruptionInformation((%s->memory_ + %s->size_))" % (pn[0], pn[0])]
-    for nd in need:
-        run.ob("R1", "checkForCorruption evaluates %s" % nd.split("(")[0], cc.site, nd in cs, witness=[c for c in cs if c.startswith(nd.split("(")[0])],
-               what="" if nd in cs else "allocators are not both resolved through actualAllocator(), or the guard bytes are not looked up at memory + size")
+            if "valid" in kinds and not v_ and "corruption" in kinds:
+                why.append("a corruption is reported for a mismatching release")
+        for k, a_ in seq:
+            if k in ("mismatch", "corruption") and ints(a_)[:1] != (56,):
+                pass
+            if k in ("mismatch", "corruption") and (6000 not in ints(a_) or 401 not in ints(a_) or 77 not in ints(a_)):
+                why.append("%s report gets %s, expected the record, line 77 and the releasing allocator's actual allocator" % (k, ints(a_)))
+            if k == "freenode" and 6000 not in ints(a_):
+                why.append("the freed record is %s" % (ints(a_),))
+        run.ob("R1", "checkForCorruption folded with matching=%d, guards valid=%d, separate record=%d" % (m_, v_, sep), cc.site, not why, witness=[(k, ints(a_)) for k, a_ in seq],
+               what="; ".join(why) if why else "")
     ma = prog.fn(DET + "::matchingAllocation")
     run.analysed(ma)
     a, b = [p["name"] for p in ma.params]
@@ -149,8 +170,8 @@ def check(ctx, run):
             DET + "::addMemoryCorruptionInformation": lambda *a_: (seen.append(a_[-1]), 0)[1], DET + "::validMemoryCorruptionInformation": lambda *a_: (seen.append(a_[-1]), 1)[1],
             DET + "::matchingAllocation": lambda *a_: 1, "TestMemoryAllocator::actualAllocator": lambda *a_: 9000, "MemoryLeakDetectorNode::init": None})
         ev.heap_mode = True
-        ev.inline = {"MemoryLeakDetectorNode::init"}
         del ev.calls["MemoryLeakDetectorNode::init"]
+        ev.inline = DINL - set(ev.calls)
         try:
             ev.run_blocks(f.entry, max_steps=400)
         except Unknown as u:
@@ -226,23 +247,26 @@ def check(ctx, run):
         run.broke("only %d tracked release wrappers found (6 confirmed by hand)" % n4)
     iv = prog.fn(DET + "::invalidateMemory")
     run.analysed(iv)
-    okp = False
-    w = []
-    for p in enumerate_paths(iv):
-        nd = p.val().get("node")
-        ms = [c for c in path_calls(prog, iv, p) if (prog.callee_name(iv, c) or "") == "PlatformSpecificMemset"]
-        w.append({"node": nd, "memset": [render(iv, c) for c in ms]})
-        if nd is True:
-            if len(ms) == 1:
-                a = iv.args(ms[0])
-                fill = const_value(iv, a[1])
-                okp = render(iv, a[0]) == iv.params[0]["name"] and fill not in (None, 0) and render(iv, a[2]) == "node->size_"
-            else:
-                okp = False
-        elif ms:
+    okp, w = True, {}
+    for tracked in (1, 0):
+        seq = []
+        ev = Evaluator(prog, iv, env={iv.params[0]["name"]: 70000, "@6000.size_": 13, "@6000.memory_": 70000}, calls={
+            "MemoryLeakDetectorTable::retrieveNode": lambda *a_, tracked=tracked: (seq.append(("retrieve", a_[-1])), 6000 if tracked else 0)[1],
+            "PlatformSpecificMemset": lambda *a_: (seq.append(("memset",) + tuple(a_)), a_[0])[1]})
+        ev.heap_mode = True
+        ev.inline = DINL - set(ev.calls)
+        try:
+            ev.run_blocks(iv.entry, max_steps=300)
+        except Unknown as u:
+            seq.append(("unknown", str(u)))
+        w["tracked" if tracked else "untracked"] = seq
+        ms = [e for e in seq if e[0] == "memset"]
+        if [e for e in seq if e[0] == "unknown"] or getattr(ev, "null_derefs", None) or [e for e in seq if e[0] == "retrieve"] != [("retrieve", 70000)]:
             okp = False
-    ini = {k: render(iv, v) for k, v in local_inits(iv).items()}
-    okp = okp and ini.get("node") == "memoryTable_.retrieveNode(%s)" % iv.params[0]["name"]
+        elif tracked and not (len(ms) == 1 and ms[0][1] == 70000 and isinstance(ms[0][2], int) and ms[0][2] & 0xff != 0 and ms[0][3] == 13):
+            okp = False
+        elif not tracked and ms:
+            okp = False
     run.ob("R4", "invalidateMemory overwrites size_ bytes of a tracked block with a non-zero pattern", iv.site, okp, witness=w)
 
     # ---------------- R5 ----------------------------------------------------
